@@ -163,6 +163,9 @@ func (s *side) apply(op string, twin bool) (out string) {
 		if len(f) > 4 && f[4] == "anon" {
 			name = "" // reachable only through the store's module list once the host drops it
 		}
+		if len(f) > 4 && strings.HasPrefix(f[4], "as:") && s.name != "T" { // (in the twin nothing is ever closed: the name is still taken)
+			name = modName(atoi(f[4][3:])) // the name of an earlier, closed instance is taken again
+		}
 		m, err := s.rt.InstantiateModule(ctx, cm, wazero.NewModuleConfig().WithName(name))
 		if err != nil {
 			cm.Close(ctx)
